@@ -696,6 +696,15 @@ func (m *collection) appendChildLLSnapshot(dst *segmentStack,
 		var childSnap Snapshot
 		if src != nil {
 			childSnap, _ = src.ChildCollectionSnapshot(cName)
+
+			childFooter, ok := childSnap.(*Footer)
+			if ok && childFooter != nil &&
+				childFooter.incarNum != childCollection.incarNum {
+				// The lower level still holds a prior incarnation of
+				// a child collection that was dropped and recreated.
+				childFooter.Close()
+				childSnap = nil
+			}
 		}
 
 		dst.childSegStacks[cName] =
